@@ -6,8 +6,8 @@ THOROUGH_MAX = 160  # all quick shapes + a fixed strided sample of the other tho
 META = {
     "bounds": "constructors contiguous/vector/hvector/indexed/hindexed/struct/resized with symbolic counts 0..6, block lengths 1..6, strides 0..64, displacements 0..64, "
               "1..3 blocks (quick: <=2) for indexed/hindexed/struct; old type either predefined-like (extent = size 1..8, lb 0) or derived with symbolic size 1..8, "
-              "extent 1..16 and lb 0 (lb 1..8 in the *_lbpos queries); data movement: serialize() of vector/hvector/indexed types over a resized one-byte type, 48 symbolic buffer bytes, element extent / block length / stride concrete per query (shape); unwind 8",
-    "outside": "subarray, indexed_block (PMPI wrapper), negative strides/displacements (excluded by the property), zero block lengths, alignment padding of struct (MPI "
+              "extent 1..16 and lb 0 (lb 1..8 in the *_lbpos queries); data movement: serialize() of vector/hvector/indexed types over a resized one-byte type, 48 symbolic buffer bytes; unserialize() with MPI_REPLACE of vector/hvector/indexed types over a derived old type with holes (vector of 2 single bytes, stride 1..3), 1..3 blocks of 1..2 elements, packed bytes symbolic, element extent / block length / stride concrete per query (shape); unwind 8",
+    "outside": "unserialize of struct/hindexed built directly, operators other than MPI_REPLACE on the receiving side, subarray, indexed_block (PMPI wrapper), negative strides/displacements (excluded by the property), zero block lengths, alignment padding of struct (MPI "
                "epsilon), Pack/Unpack/Sendrecv plumbing and collectives, attribute/contents bookkeeping",
     "stubs": ["F2C::add_f / F2C ctor (Fortran handle table)", "xbt logging -> silent", "abort() = violation", "std::string = 'nostring' model"],
     "assumptions": ["the old type is a plain Datatype object with the given size/lb/ub (its own type map is abstract)"],
@@ -34,6 +34,16 @@ def queries(tier):
             for e, b, st in shapes:
                 qs.append(Query(f"serialize_{cname}_count{cnt}_e{e}_b{b}_s{st}", "C30/serialize.cpp", "harness_serialize",
                                 dict(P_CTOR=c, P_COUNT=cnt, P_E=e, P_B=b, P_STRIDE=st), SRC, unwind=8, cap_s=600, mem_gb=12,
+                                prelude=["rbtree", "nostring"], no_pointer_overflow=True, ll2c_cap=8, memcap=8))
+    # receiving side: unserialize with MPI_REPLACE over an old type that is itself derived and has holes (vector of 2 single bytes, stride vs)
+    ushapes = [(2, 1, 3), (2, 2, 2)] if tier == "quick" else [(vs, b, st) for vs in (1, 2, 3) for b in (1, 2) for st in (2, 3)]
+    for c, cname in ((1, "vector"), (2, "hvector"), (3, "indexed")):
+        for cnt in ((2,) if tier == "quick" else (1, 2, 3)):
+            for vs, b, st in ushapes:
+                if st < b:
+                    continue
+                qs.append(Query(f"unserialize_{cname}_count{cnt}_vs{vs}_b{b}_s{st}", "C30/unserialize.cpp", "harness_unserialize",
+                                dict(P_CTOR=c, P_COUNT=cnt, P_VS=vs, P_B=b, P_STRIDE=st), SRC, unwind=66, cap_s=600, mem_gb=12,
                                 prelude=["rbtree", "nostring"], no_pointer_overflow=True, ll2c_cap=8, memcap=8))
     for q_ in qs:
         if q_.name in ("indexed_n2_derived_lbpos", "indexed_n3_derived_lbpos"):
